@@ -1,0 +1,16 @@
+//go:build verif
+
+package vestingsc
+
+import "github.com/0chain/common/core/util"
+
+// VerifCodecTypes returns constructors of the unexported stored types of this package
+// (verification harness only; property C08).
+func VerifCodecTypes() []func() util.MPTSerializable {
+	return []func() util.MPTSerializable{
+		func() util.MPTSerializable { return &config{} },
+		func() util.MPTSerializable { return &vestingPool{} },
+		func() util.MPTSerializable { return &clientPools{} },
+		func() util.MPTSerializable { return &destination{} },
+	}
+}
